@@ -1343,6 +1343,21 @@ impl<'h, A: Kind, B: Kind, C: Kind> Run<'h, A, B, C> {
                         }
                     }
                 }
+                // C17, a second fault: a batch deletion whose failing element is a handle of another
+                // world with an index this world never issued and a generation above one (the
+                // error path may panic on it). Whatever the call reports, the elements it killed
+                // before must have their indices back (the drain below asks for them).
+                if self.h.prop == Prop::C17 {
+                    if let Some(s) = (0..self.m.st.len()).find(|s| self.m.st[*s] != St::Dead) {
+                        let e = self.m.handles[s];
+                        let foreign = foreign_handle();
+                        let r = crate::util::catch(|| self.w.delete_entities(&[e, foreign]).is_ok());
+                        self.obs(match r { Ok(true) => 2, Ok(false) => 1, Err(_) => 0 });
+                        if !self.w.entities().is_alive(e) {
+                            self.m.die(s);
+                        }
+                    }
+                }
                 // drain the free list through both allocation paths, alternating
                 let extra = self.m.st.iter().filter(|s| **s == St::Dead).count() + 2;
                 let keep = self.h.n_create;
@@ -1574,6 +1589,20 @@ impl<'h, A: Kind, B: Kind, C: Kind> Run<'h, A, B, C> {
 }
 
 /// Two-lane hasher giving a 128-bit key.
+/// A handle of another world: index 199 (never issued by the explored worlds), generation 2.
+fn foreign_handle() -> Entity {
+    static H: std::sync::OnceLock<Entity> = std::sync::OnceLock::new();
+    *H.get_or_init(|| {
+        let mut w = World::new();
+        let es: Vec<Entity> = (0..200).map(|_| w.create_entity().build()).collect();
+        w.delete_entity(es[199]).unwrap();
+        w.maintain();
+        let e = w.create_entity().build();
+        assert_eq!((e.id(), e.gen().id()), (199, 2));
+        e
+    })
+}
+
 #[derive(Default)]
 pub struct KeyHasher {
     a: std::collections::hash_map::DefaultHasher,
